@@ -215,14 +215,15 @@ Definition entry (x : sx) : sx :=
           L [ L (map (fun r => enc_obs (fst (fst (fst r)))) rs);
               L (map sxS (flat_map (fun r => snd (fst (fst r))) rs));
               L (map sxS (flat_map (fun r => snd (fst r)) rs));
-              sxBool (forallb (fun r => snd r) rs) ]
+              L []; sxBool (forallb (fun r => snd r) rs) ]
       end
   | _ =>
   match decode x with
   | None => sxS "bad-case"
   | Some (c, io) =>
       let m := run_model c in
-      L [ enc_obs m; L (map sxS (holds c m)); L (map sxS (holds c io));
+      (* 5th item: the case satisfies the hypotheses of C05_holds (C05_covered_cases applies) *)
+      L [ enc_obs m; L (map sxS (holds c m)); L (map sxS (holds c io)); L [];
           sxBool (validb c); sxBool (cmember c); sxBool (cwell_typed c) ]
   end
   end.
